@@ -31,11 +31,15 @@ def run(ck):
     if m.violated != "NoSpuriousRefusal":
         raise vf.Infra("RateLimiterMap.tla (as the code is) should violate NoSpuriousRefusal, got %r %r" % (m.violated, m.error))
     ck.note("RateLimiterMap.tla as the code is (RetryOnMiss = FALSE): NoSpuriousRefusal violated as expected = observation O-26a (%s)" % m.summary())
+    m3 = vf.run_tlc(os.path.join(SPECDIR, "RateLimiterMap.tla"), os.path.join(SPECDIR, "RateLimiterMap_cleanup.cfg"), tag="X26mapc", workers=2, timeout=300)
+    if m3.violated != "NoBusyEviction":
+        raise vf.Infra("RateLimiterMap.tla (cleanup as the code is) should violate NoBusyEviction, got %r %r" % (m3.violated, m3.error))
+    ck.note("RateLimiterMap.tla, cleanup as the code is (EraseRechecks = FALSE): NoBusyEviction violated as expected = observation O-26b (%s)" % m3.summary())
     m2 = vf.run_tlc(os.path.join(SPECDIR, "RateLimiterMap.tla"), os.path.join(SPECDIR, "RateLimiterMap_retry.cfg"), tag="X26mapr", workers=2, coverage=True, timeout=300)
     if m2.error or m2.violated:
-        raise vf.Infra("RateLimiterMap.tla with RetryOnMiss = TRUE: %r %r" % (m2.violated, m2.error))
+        raise vf.Infra("RateLimiterMap.tla with RetryOnMiss = EraseRechecks = TRUE: %r %r" % (m2.violated, m2.error))
     ck.states += m2.distinct; ck.transitions += m2.generated
-    ck.note("RateLimiterMap.tla with RetryOnMiss = TRUE (3 callers, burst 2, 3 removes): %s" % m2.summary())
+    ck.note("RateLimiterMap.tla with RetryOnMiss = EraseRechecks = TRUE (3 callers, burst 2, 2 removes, 2 cleanups): %s" % m2.summary())
     lines = []
     for i in range(1200 if ck.tier == "thorough" else 300):
         rate = ck.rng.choice([1, 1, 2, 3]); burst = ck.rng.choice([1, 2, 3, 4])
